@@ -233,8 +233,8 @@ def outcome_table(chk, cls, fi, kind):
                 if done and F is not None and f in (("attr", F, "set_exception"), ("attr", F, "set_result")):
                     return [("raise", INVALID_STATE)]  # library fact: completing a done future raises
                 # call_soon_threadsafe(self.h, x): deferred call of h(x) on the loop
-                if f[0] == "attr" and f[2] in ("call_soon_threadsafe", "call_soon") and ct[2] and ct[2][0][0] == "attr" and ct[2][0][1] == SELF:
-                    m = prog.lookup_method(cls, ct[2][0][2])
+                if f[0] == "attr" and f[2] in ("call_soon_threadsafe", "call_soon") and ct[2] and ((ct[2][0][0] == "attr" and ct[2][0][1] == SELF) or (ct[2][0][0] == "glob" and ct[2][0][1] in prog.functions)):
+                    m = prog.lookup_method(cls, ct[2][0][2]) if ct[2][0][0] == "attr" else prog.functions[ct[2][0][1]]
                     if m is not None:
                         path.ev("deferred", m.qual, f[2])
                         res = it.inline(m, ct[2][0], tuple(ct[2][1:]), (), path, node)
@@ -247,7 +247,7 @@ def outcome_table(chk, cls, fi, kind):
                     return done
                 return None
 
-            outs = Interp(prog, fi, call_hook=hook, decide=decide, inline=lambda f, ct: f.cls is cls).run()
+            outs = Interp(prog, fi, call_hook=hook, decide=decide, inline=lambda f, ct: f.cls is cls or (f.cls is None and not f.is_async and f.module.name.startswith(cls.module.name.rpartition(".")[0]))).run()
             chk.count(len(outs))
             for o in outs:
                 evs = o.path.events
@@ -650,7 +650,46 @@ def thread_affinity(chk, found):
                                     node=node,
                                     stmt="%s.%s in %s" % (d, node.func.attr, sorted(ctx - {LOOP})),
                                 )
-    chk.floor(rule, n, 6)
+    # module-level helpers that are handed one of these objects:  helper(self._payload_failure, x)  /
+    # call_soon_threadsafe(helper, self._payload_failure, x)  -- the mutation happens in the helper's context
+    all_fields = set()
+    for q, (cls, _m) in found.items():
+        facts = common.runner_facts(prog, cls)
+        all_fields |= {a for a in (facts.get("failure_future"), facts.get("task_registry")) if a}
+    handed = {}  # helper qual -> {param index}
+    for q, (cls, _m) in found.items():
+        for fis in cls.methods.values():
+            for fi in fis:
+                for node in util.walk_no_nested(fi.node):
+                    if not isinstance(node, ast.Call):
+                        continue
+                    callee, args = node.func, list(node.args)
+                    if isinstance(callee, ast.Attribute) and callee.attr in ("call_soon_threadsafe", "call_soon") and args:
+                        callee, args = args[0], args[1:]
+                    r = prog.resolve(fi.module, callee) if isinstance(callee, (ast.Name, ast.Attribute)) else None
+                    h = prog.functions.get(r) if r else None
+                    if h is None or h.cls is not None:
+                        continue
+                    for i, a in enumerate(args):
+                        d = util.dotted(a) or ""
+                        if d.startswith("self.") and d.count(".") == 1 and d.split(".")[1] in all_fields:
+                            handed.setdefault(h.qual, set()).add(i)
+    for hq, idxs in sorted(handed.items()):
+        h = prog.functions[hq]
+        hp = h.params()
+        names = {hp[i] for i in idxs if i < len(hp)}
+        for node in util.walk_no_nested(h.node):
+            if isinstance(node, ast.Call) and isinstance(node.func, ast.Attribute) and node.func.attr in MUTATORS and isinstance(node.func.value, ast.Name) and node.func.value.id in names:
+                n += 1
+                chk.count()
+                ctx = set(g.contexts.get(h.qual, ()))
+                if not ctx:
+                    chk.undecided(rule, h.qual, "no execution context derived for a helper that mutates an asyncio object it is handed", node=node, aux=True)
+                    continue
+                if ctx - {LOOP}:
+                    bad += 1
+                    chk.bad(rule, h.qual, "%s.%s() is called in execution context %s on an asyncio object of a runner: asyncio objects are not thread-safe; use call_soon_threadsafe" % (node.func.value.id, node.func.attr, sorted(ctx - {LOOP})), node=node, stmt="%s.%s in %s" % (node.func.value.id, node.func.attr, sorted(ctx - {LOOP})))
+    chk.floor(rule, n, 5)
     if not bad:
         chk.ok(rule, "<runners>", "all %d mutations of asyncio futures / events / the task registry happen in functions whose only execution context is the loop thread" % n)
 
